@@ -1512,6 +1512,8 @@ class Engine:
             return v
         if isinstance(v, dict):
             return v
+        if is_val(v):
+            return v            # a symbolic dict: handed to the callee as kw["**"] (only unknown callables accept it)
         raise Unsupported("**kwargs of a symbolic mapping")
 
     # ------------------------------------------------------------------ calls
